@@ -10,7 +10,7 @@
    stated in its order-only (bottleneck / minimax) form, which is meaningful on the
    IEEE-order encoding of floats; vocabulary in Spec/Paths.v and Spec/Trees.v. *)
 From OPF Require Import Proofs.HeapPrelude Base.Lists Model.Heap Model.Sup Spec.Paths Spec.Trees
-  Proofs.PrimGraph Proofs.PrimMain.
+  Proofs.PrimGraph Proofs.PrimWeight Proofs.PrimMain.
 
 (* The predecessor map left by the pass is a spanning tree rooted at node 0: every other
    node has a parent that was removed from the heap before it ([ord] is the removal
@@ -96,10 +96,50 @@ Theorem C02_prototypes_nonempty :
     exists s, s < n /\ nth s (n_status nd) false = true.
 Proof. exact init_prototypes_nonempty. Qed.
 
-(* Uniqueness, general form: with pairwise distinct weights, two connected arc relations
-   on 0..n-1 (in particular two spanning trees) all of whose simple paths are minimax paths
-   have the same arcs. *)
+(* The predecessor map is a rooted spanning tree in the sense of Spec/Trees.v, so that the
+   two theorems about arbitrary spanning trees below apply to it. *)
+Theorem C02_prim_spanning_parent_map :
+  forall (zero top : Z) (n : nat) (w : nat -> nat -> Z) (labels : list nat),
+    1 <= n -> length labels = n ->
+    (forall p q, p < n -> q < n -> p <> q -> (w p q < top)%Z) ->
+    let nd := find_prototypes Z.ltb top n w (nodes_init zero labels) in
+    spanning_parent_map n (fun q => nth q (n_pred nd) None).
+Proof. exact init_prim_spanning_parent_map. Qed.
+
+(* Uniqueness over abstract spanning trees (parent maps rooted anywhere): with pairwise
+   distinct weights, two spanning trees whose tree paths are minimax paths have the same
+   arcs. *)
 Theorem C02_cycle_optimal_unique :
+  forall (n : nat) (w : nat -> nat -> Z) (pred1 pred2 : nat -> option nat),
+    distinct_weights n w ->
+    spanning_parent_map n pred1 -> minimax_paths n w (tree_arc pred1) ->
+    spanning_parent_map n pred2 -> minimax_paths n w (tree_arc pred2) ->
+    forall u v, u < n -> v < n -> u <> v -> (tree_arc pred1 u v <-> tree_arc pred2 u v).
+Proof. exact cycle_optimal_unique. Qed.
+
+(* Minimum total weight (integer weights): a spanning tree whose tree paths are minimax
+   paths weighs no more than any spanning tree; in particular the tree of the pass. *)
+Theorem C02_cycle_optimal_is_minimum :
+  forall (n : nat) (w : nat -> nat -> Z) (predT predS : nat -> option nat),
+    (forall p q, p < n -> q < n -> w p q = w q p) ->
+    spanning_parent_map n predT -> minimax_paths n w (tree_arc predT) ->
+    spanning_parent_map n predS ->
+    (tree_weight n w predT <= tree_weight n w predS)%Z.
+Proof. exact cycle_optimal_is_minimum. Qed.
+
+Theorem C02_prim_minimum_weight :
+  forall (zero top : Z) (n : nat) (w : nat -> nat -> Z) (labels : list nat),
+    1 <= n -> length labels = n ->
+    (forall p q, p < n -> q < n -> p <> q -> (w p q < top)%Z) ->
+    (forall p q, p < n -> q < n -> w p q = w q p) ->
+    let nd := find_prototypes Z.ltb top n w (nodes_init zero labels) in
+    forall predS, spanning_parent_map n predS ->
+      (tree_weight n w (fun q => nth q (n_pred nd) None) <= tree_weight n w predS)%Z.
+Proof. exact init_prim_minimum_weight. Qed.
+
+(* Uniqueness, most general form: with pairwise distinct weights, two connected arc
+   relations on 0..n-1 all of whose simple paths are minimax paths have the same arcs. *)
+Theorem C02_minimax_arcs_unique :
   forall (n : nat) (w : nat -> nat -> Z),
     distinct_weights n w ->
     forall R1 R2 : nat -> nat -> Prop,
